@@ -1,6 +1,7 @@
 """C03 — the client transmits exactly the encoding of a request, or nothing (structural clauses)."""
 from core import rule, loc_of
 from facts import AnchorLost, norm
+from facts import norm as facts_norm
 import q, effects
 from tables import *
 from rules.c08 import one, WIRE_WRITE
@@ -291,6 +292,65 @@ def r6(c):
     c.ob('mbap/length', ok, 'the MBAP length field derives from the cursor positions at the start and end of the PDU and is written at the reserved position', '%d candidate writes' % len(lenw), loc_of(fm))
 
 
+def bit_packing_fold(c, b, nm, wr, fold):
+    """the other way the same packing is commonly written: each 8-element chunk is folded into its byte,
+    `chunk.iter().enumerate().filter(|(_, bit)| **bit).fold(0, |acc, (pos, _)| acc | (1 << pos))`.
+    The accumulator is fresh per byte by construction (fold's initial value), the position restarts with enumerate."""
+    P = c.P
+    c.ob('%s/flush-site' % nm, True, 'one write_u8 inside the loop writes the byte a fold over the chunk produced', 'fold form', wr.loc())
+    c.ob('%s/acc-cleared' % nm, q.const_val(b, fold.args[1]) == 0, 'the fold starts from 0 for every byte (no bits leak into the next byte)', '', fold.loc())
+    c.ob('%s/flush-checked' % nm, bool(q.outcomes(b, wr).get('success')), 'a failing write ends the serialisation', '', wr.loc())
+    # the iterator folded: enumerate() of the chunk's iter(), optionally filtered by the bit itself
+    src = q.sem(b, fold.args[0], transparent=False)
+    flt = None
+    if src.kind == 'call' and src.cs.declared == 'core::iter::traits::iterator::Iterator::filter':
+        flt = src.cs
+        src = q.sem(b, flt.args[0], transparent=False)
+    oke = src.kind == 'call' and src.cs.declared == 'core::iter::traits::iterator::Iterator::enumerate'
+    it = q.sem(b, src.cs.args[0], transparent=False) if oke else None
+    oke = oke and it.kind == 'call' and it.cs.callee.endswith('::iter')
+    chunk = q.sem(b, it.cs.args[0]) if oke else None
+    ch = [cs for cs in b.calls() if cs.callee.endswith('::chunks')]
+    okc = oke and len(ch) == 1 and q.const_val(b, ch[0].args[1]) == 8 and chunk.kind == 'call' and chunk.cs.declared == 'core::iter::traits::iterator::Iterator::next' and \
+        any(y[0] == 'call' and y[2] == ch[0].block for y in b.op_closure(chunk.cs.args[0]))
+    c.ob('%s/chunks-of-8' % nm, okc, 'the fold runs over enumerate() of one chunk of chunks(8): positions 0..7 restart for every byte', repr(src), fold.loc())
+    # the fold closure: |acc, (pos, bit)| acc | (1 << pos)   [with the filter: only set bits reach it]
+    fc = q.sem(b, fold.args[2])
+    okb = fc.kind == 'agg' and 'closure' in fc.extra
+    detail = ''
+    if okb:
+        cb = P.get(facts_norm(fc.extra['closure']))
+        xs = q.exits(cb) if cb is not None else []
+        okb = cb is not None and len(xs) == 1 and not cb.cycles()
+        if okb:
+            x = xs[0]
+            v = q.sem(cb, x['op']) if x['kind'] == 'copy' else (q.Sem('bin', extra=('bin', x['rv']['op'], x['rv']['a'][0], x['rv']['a'][1], (), x['node'][1])) if x['kind'] == 'other' and x['rv']['r'] == 'bin' else None)
+            okb = v is not None and v.kind == 'bin' and v.extra[1] == 'BitOr'
+            if okb:
+                ops = [v.extra[2], v.extra[3]]
+                accs = [o for o in ops if q.sem(cb, o).kind == 'place' and q.sem(cb, o).local == 2 and not q.sem(cb, o).proj]
+                shs = [q.sem(cb, o) for o in ops if q.sem(cb, o).kind == 'bin' and q.sem(cb, o).extra[1] in ('Shl', 'ShlUnchecked')]
+                okb = len(accs) == 1 and len(shs) == 1 and q.const_val(cb, shs[0].extra[2]) == 1
+                if okb:
+                    amt = q.sem(cb, shs[0].extra[3])
+                    if amt.kind == 'cast':
+                        amt = amt.extra[0]
+                    okb = amt.kind == 'place' and amt.local == 3 and tuple(amt.proj) == ('field:0:',)
+                    detail = 'shift amount %r' % amt
+    c.ob('%s/bit-set' % nm, okb, 'the fold closure returns `acc | (1 << position)` with the enumerate index as position (LSB first)', detail, fold.loc())
+    # only set bits contribute: the filter closure returns the bit itself
+    okf = flt is not None
+    if okf:
+        pc = q.sem(b, flt.args[1])
+        okf = pc.kind == 'agg' and 'closure' in pc.extra
+        if okf:
+            pb = P.get(facts_norm(pc.extra['closure']))
+            xs = q.exits(pb) if pb is not None else []
+            okf = pb is not None and len(xs) == 1 and xs[0]['kind'] == 'copy' and xs[0]['sem'].kind == 'place' and xs[0]['sem'].local == 2 and \
+                [p for p in xs[0]['sem'].proj if p != 'deref'] == ['field:1:']
+    c.ob('%s/only-set-bits' % nm, okf, 'the fold sees exactly the positions whose bit is true (filter on the bit itself)', '', fold.loc())
+
+
 def bit_packing_rule(c, path, acc='acc', pos_var=None, chunk8=False):
     """structural half of LSB-first packing: one accumulator byte per 8 bits, cleared for every byte, bit i set by
     `1 << position` with the position restarting for every byte"""
@@ -300,6 +360,10 @@ def bit_packing_rule(c, path, acc='acc', pos_var=None, chunk8=False):
     w8 = b.calls('scursor::write::WriteCursor::write_u8')
     looped = [cs for cs in w8 if b.in_cycle(cs.node)]
     nm = path.split(' as ')[0].lstrip('<')
+    if chunk8 and len(looped) == 1:
+        fv = q.sem(b, looped[0].args[1])
+        if fv.kind == 'call' and fv.cs.declared == 'core::iter::traits::iterator::Iterator::fold' and not fv.proj:
+            return bit_packing_fold(c, b, nm, looped[0], fv.cs)
     c.ob('%s/flush-site' % nm, len(looped) == 1 and acc in q.chain_names(b, looped[0].args[1]), 'one write_u8 inside the loop flushes the accumulator', '%d looped writes' % len(looped), loc_of(b))
     if len(looped) != 1:
         return
